@@ -2,7 +2,7 @@
 from .. import common, gen, mergecorr, oracles, t2
 from . import base
 
-THEOREMS = ['C03_constants', 'C03_binary', 'C03_winner', 'C03_metadata']
+THEOREMS = ['C03_constants', 'C03_binary', 'C03_winner', 'C03_metadata', 'C03_container_priority_applies_below']
 
 
 def in_domain(docs):
@@ -73,6 +73,18 @@ def run(rep, tier, rng):
                 'non-trivial = some path has writers of >= 2 different priorities; distinct = hash of the texts')
     base.proofs(rep, 'Properties.C03', THEOREMS, deps=['Proofs.FactsOk'])
     t2.run(rep, ['hpo', 'repl'], tier)
+    # the loader model the container theorem is stated on: priority tags (nested, on mappings, lists and scalars, with metadata priorities)
+    from .. import loadcorr
+    pprof = gen.Profile(p_tag=0.45, tags=['!force', '!weak', '!force', '!weak', '!del', '!unsafe'], meta=0.25, underscore=True, p_intkey=0.15, max_depth=4)
+    litems = []
+    for _ in range(150 if tier == 'quick' else 2500):
+        r = loadcorr.run_case(gen.gen_doc(rng, pprof), safe=True)
+        if r['ok']:
+            litems.append(r['term'])
+    bad, errors, wall, cmd = common.run_case_files('c03l', loadcorr.HEADER, litems, loadcorr.CHECK)
+    rep.checker_cmds.append(cmd)
+    rep.oblige(f'T3 correspondence Model.Loader.load_doc = awesomeyaml.yaml.parse on {len(litems)} documents with nested priority tags (raw priority of every node)',
+               bool(litems) and not bad and not errors, (f'{len(bad)} disagreements' if bad else '') + (errors[0]['log'][-400:] if errors else ''))
     n = 400 if tier == 'quick' else 6000
     cases = base.merge_t3(rep, rng, ['priomap', 'prio', 'priomap'], n, 'prio', 2, 5)
     hist = [c['docs'] for c in cases if 'docs' in c]
